@@ -199,6 +199,12 @@ def generate(seed: int, tier: str = "quick") -> dict:
     if deferred and rng.random() < (0.6 if cfg["rot_params"] else 0.35):
         cfg["fault_compute"] = {"at": rng.randint(1, 60), "exc": rng.choice(["InjectedFault", "MemoryError", "OSError"]),
                                 "call": rng.choice([1, 1, 2, 3, 4, 5])}
+    cfg["fault_fit"] = None
+    if not deferred and rng.random() < 0.25:
+        # an eager fit on dask-backed data that is interrupted by a task failure in a drawn scheduler call, and retried
+        # on the same object: the retried fit is the one compared with the in-memory fit
+        cfg["fault_fit"] = {"call": rng.choice([1, 1, 2, 2, 3, 4, 6, 9, 12]), "at": rng.choice([1, 1, 2, 3, 5, 8, 20, 60]),
+                            "exc": rng.choice(["InjectedFault", "MemoryError", "OSError"])}
     cfg["s1"] = deferred and rng.random() < (0.3 if tier == "quick" else 0.6)
     cfg["compute_twice"] = rng.random() < 0.6
     nm = int((cfg["rot_params"] or params)["n_modes"])
@@ -382,6 +388,19 @@ def execute(cfg: dict, *, stop_at_first=True, trace=False) -> RunResult:
             core.ambient_event(seed, "start", clock)
             step("fit")
             sub = spec.cls()(**copy.deepcopy(params))
+            if cfg.get("fault_fit"):
+                ff = cfg["fault_fit"]
+                sim.cfg.permanent_at, sim.cfg.permanent_exc, sim.cfg.permanent_call = int(ff["at"]), ff["exc"], int(ff["call"])
+                sim.cfg.armed_calls = 0
+                fo = oracle.capture(models.fit_model, spec, sub, _cfit(fit), env)
+                sim.cfg.permanent_at = None
+                sim.cfg.armed_calls = 0
+                if not fo.ok and fo.exc_type == ff["exc"] and "injected" in fo.exc_msg:
+                    counts["task_faults"] += 1
+                    counts["fit_faults"] = counts.get("fit_faults", 0) + 1
+                    probes.add("eager fit interrupted by a task failure, then retried on the same object")
+                res.log.append(f"  fit under an injected fault -> {fo.kind()}")
+                step("fit_retry")
             mark = sim.mark()
             sout = oracle.capture(models.fit_model, spec, sub, _cfit(fit), env)
             fit_calls = sim.calls_since(mark)
@@ -681,6 +700,8 @@ def simplifications(cfg: dict):
         yield variant(handles=[], handle_timing=[])
     if cfg.get("fault_compute"):
         yield variant(fault_compute=None)
+    if cfg.get("fault_fit"):
+        yield variant(fault_fit=None)
     if cfg.get("s1"):
         yield variant(s1=False)
     if cfg.get("compute_twice"):
